@@ -25,7 +25,20 @@ type gen struct {
 }
 
 func (g *gen) n(lo, hi int, label string) int { return rapid.IntRange(lo, hi).Draw(g.t, label) }
-func (g *gen) pct(p int, label string) bool   { return rapid.IntRange(0, 99).Draw(g.t, label) < p }
+
+// pct is true with probability p%. rapid's integer generators are biased towards small values
+// (IntRange(0,99) < 6 holds a third of the time), booleans are not: seven of them make a
+// uniform number in [0,128). All-false (what shrinking moves towards) gives false.
+func (g *gen) pct(p int, label string) bool {
+	v := 0
+	for i := 0; i < 7; i++ {
+		v <<= 1
+		if rapid.Bool().Draw(g.t, label) {
+			v |= 1
+		}
+	}
+	return v >= 128-(p*128+50)/100
+}
 
 func pick[T any](g *gen, xs []T, label string) T {
 	return xs[rapid.IntRange(0, len(xs)-1).Draw(g.t, label)]
@@ -827,7 +840,7 @@ func genCase(t *rapid.T) *Case {
 	}
 	g.m = newModel(g.c.Limit)
 	g.maxMods = g.n(2, 4, "n-modules")
-	steps := g.n(g.maxMods+2, 30, "n-steps")
+	steps := g.maxMods + 2 + 5*g.n(0, 4, "n-steps-coarse") + g.n(0, 4, "n-steps-fine") // 4..30, not biased to short scripts
 	for i := 0; i < steps; i++ {
 		left := steps - i
 		need := 2 - len(g.c.Specs)
